@@ -1,4 +1,5 @@
 import Memterm.Proofs.InvStep
+import Memterm.Proofs.SparseStep
 import Memterm.Spec.C07
 
 /-
@@ -171,6 +172,17 @@ example :
     let s := draw env (init 3 2) [97, 98, 99]
     s.cursor.x = 3 ∧ (eraseInLine s (some 1)).cell 0 2 = cursorCell s ∧ (eraseInLine s (some 1)).cell 1 2 = s.cell 1 2 := by
   decide
+
+/-! #### the sparse layer: the insert loops of the erase operations -/
+
+theorem sparse_ed (ss : Sparse.SScreen) (h : Option Nat) :
+    Sparse.abs (Sparse.eraseInDisplay ss h) = eraseInDisplay (Sparse.abs ss) h := Sparse.abs_eraseInDisplay ss h
+
+theorem sparse_el (ss : Sparse.SScreen) (h : Option Nat) :
+    Sparse.abs (Sparse.eraseInLine ss h) = eraseInLine (Sparse.abs ss) h := Sparse.abs_eraseInLine ss h
+
+theorem sparse_ech (ss : Sparse.SScreen) (n : Option Nat) :
+    Sparse.abs (Sparse.eraseCharacters ss n) = eraseCharacters (Sparse.abs ss) n := Sparse.abs_eraseCharacters ss n
 
 end C07
 end Memterm
